@@ -225,7 +225,7 @@ fn is_highest_hunk_of_incomplete_band(s: &Subject, raw: &fmt06::Raw, relpath: &s
     false
 }
 
-fn judge(run: &Run, s: &Subject, raw_pre: &fmt06::Raw, d: &Damage, arch: &Path, out: &Path, cr: &ChildRun, replay: &Value) {
+fn judge(run: &Run, s: &Subject, raw_pre: &fmt06::Raw, base_errors: &BTreeMap<u32, u64>, d: &Damage, arch: &Path, out: &Path, cr: &ChildRun, replay: &Value) {
     let dc = d.class();
     // 1. terminated normally
     if cr.timed_out {
@@ -324,7 +324,7 @@ fn judge(run: &Run, s: &Subject, raw_pre: &fmt06::Raw, d: &Damage, arch: &Path, 
                 // (a damaged BANDHEAD makes its band look deleted, and stitching skips deleted
                 // bands by design: the statement promises reporting for hunks and blocks)
                 run.count("touched_entries_judged", 1);
-                if !same && n_errors == 0 {
+                if !same && n_errors <= base_errors.get(b).copied().unwrap_or(0) {
                     silent_loss = Some(format!("b{b:04} {p}: expected {} got {:?}", tree::describe(node), actual.get(p).map(tree::describe)));
                 }
             }
@@ -364,7 +364,7 @@ fn judge(run: &Run, s: &Subject, raw_pre: &fmt06::Raw, d: &Damage, arch: &Path, 
     }
 }
 
-fn one_damage(run: &Run, s: &Subject, raw_pre: &fmt06::Raw, exe: &Path, wrapper: &[&str], budget: usize, case: u64, di: usize, d: &Damage, counter: &str) {
+fn one_damage(run: &Run, s: &Subject, raw_pre: &fmt06::Raw, base_errors: &BTreeMap<u32, u64>, exe: &Path, wrapper: &[&str], budget: usize, case: u64, di: usize, d: &Damage, counter: &str) {
     let arch = damage::damaged_copy(s, d, run.seed);
     let out = s.world.sc.fresh("out");
     std::fs::create_dir_all(&out).unwrap();
@@ -374,7 +374,7 @@ fn one_damage(run: &Run, s: &Subject, raw_pre: &fmt06::Raw, exe: &Path, wrapper:
     run.observe("damage_classes", d.class());
     run.nontrivial(fnv(format!("{case}|{}", d.desc()).as_bytes()));
     let replay = json!({"case": case, "damage_index": di, "damage": d.desc(), "history": s.desc});
-    judge(run, s, raw_pre, d, &arch, &out, &cr, &replay);
+    judge(run, s, raw_pre, base_errors, d, &arch, &out, &cr, &replay);
     crate::scratch::rm(&arch);
     crate::scratch::rm(&out);
 }
@@ -386,7 +386,7 @@ pub fn run(tier: Tier, replay: Option<Value>) -> i32 {
     if !memcheck {
         run.count("memcheck_unavailable", 1);
     }
-    let n = tier.pick(2u64, 24);
+    let n = tier.pick(4u64, 40);
     for case in 0..n {
         if let Some(r) = &replay {
             if r.get("case").and_then(|c| c.as_u64()) != Some(case) {
@@ -407,6 +407,11 @@ pub fn run(tier: Tier, replay: Option<Value>) -> i32 {
         };
         let base_ops = base_rep["storage_ops"].as_u64().unwrap_or(1000) as usize;
         let budget = base_ops * 1000;
+        let base_errors: BTreeMap<u32, u64> = s
+            .bands
+            .iter()
+            .map(|b| (*b, base_rep["bands"][b.to_string()]["restore"]["errors"].as_u64().unwrap_or(0)))
+            .collect();
         run.count("archives", 1);
         let flips = tier.pick(2, 6);
         let damages = damage::all_damages(&s.world.arch, true, flips);
@@ -428,7 +433,7 @@ pub fn run(tier: Tier, replay: Option<Value>) -> i32 {
                         run.count("damages_skipped_by_time_budget", 1);
                         continue;
                     }
-                    if let Err(m) = crate::report::guard(|| one_damage(&run, &s, &raw_pre, &exe, &[], budget, case, i, &damages[i], "damaged_archives_run")) {
+                    if let Err(m) = crate::report::guard(|| one_damage(&run, &s, &raw_pre, &base_errors, &exe, &[], budget, case, i, &damages[i], "damaged_archives_run")) {
                         run.inconclusive(format!("harness error: {m}"));
                     }
                 });
@@ -454,7 +459,7 @@ pub fn run(tier: Tier, replay: Option<Value>) -> i32 {
                             break;
                         }
                         let (di, d) = sel[i];
-                        if let Err(m) = crate::report::guard(|| one_damage(&run, &s, &raw_pre, &exe, &wrapper, budget * 4, case, di, d, "damaged_archives_run_under_memcheck")) {
+                        if let Err(m) = crate::report::guard(|| one_damage(&run, &s, &raw_pre, &base_errors, &exe, &wrapper, budget * 4, case, di, d, "damaged_archives_run_under_memcheck")) {
                             run.inconclusive(format!("harness error: {m}"));
                         }
                     });
@@ -462,7 +467,6 @@ pub fn run(tier: Tier, replay: Option<Value>) -> i32 {
             });
         }
     }
-    let _: BTreeMap<u8, u8> = BTreeMap::new();
     let needs: &[(&str, u64)] = if replay.is_some() { &[] } else {
         &[("damaged_archives_run", 200), ("children_completed", 150), ("untouched_entries_compared", 1000), ("touched_entries_judged", 50), ("followup_backups_judged", 50)]
     };
